@@ -24,7 +24,7 @@ EXTRAS_C10 = ["textattr", "wildtail", "scalarwild", "fixed", "required", "anytyp
 
 
 # ------------------------------------------------------------------ Coq evaluation returning one code per case
-def coq_codes(tag, defs, ctype, fn, cases, shard=50, timeout=900):
+def coq_codes(tag, defs, ctype, fn, cases, shard=50, timeout=900, imports=None):
     """Evaluate `fn : ctype -> N` on every case inside Coq (vm_compute); returns the list of codes."""
     import concurrent.futures as cf
     os.makedirs(common.CORR, exist_ok=True)
@@ -32,7 +32,7 @@ def coq_codes(tag, defs, ctype, fn, cases, shard=50, timeout=900):
     paths = []
     for k, sh in enumerate(shards):
         path = os.path.join(common.CORR, f"cases_{tag}_{k}.v")
-        body = [IMPORTS, "From Coq Require Import NArith ZArith List Bool.", "Import ListNotations.", defs,
+        body = [imports or IMPORTS, "From Coq Require Import NArith ZArith List Bool.", "Import ListNotations.", defs,
                 f"Definition the_cases : list ({ctype}) := [", ";\n".join(sh), "].",
                 f"Eval vm_compute in (map (fun x => N.to_nat ({fn} x)) the_cases)."]
         with open(path, "w") as f:
